@@ -87,9 +87,17 @@ Shrink(S, i, st0, LO, MO, IO) ==
   IF i > Len(QuirkOrder) THEN S
   ELSE LET S2 == S \ {QuirkOrder[i]} IN
        Shrink(IF S2 # {} /\ Matches(S2, st0, LO, MO, IO) THEN S2 ELSE S, i + 1, st0, LO, MO, IO)
+(* fall-back when the tree has been partly repaired (amoco with ALL quirks no longer predicts the case): the *)
+(* smallest non-empty quirk set that does, searched by increasing size                                        *)
+RECURSIVE Smallest(_, _, _, _, _)
+Smallest(k, st0, LO, MO, IO) ==
+  LET all == {QuirkOrder[i] : i \in 1..Len(QuirkOrder)} IN
+  IF k >= Cardinality(all) THEN {}
+  ELSE LET S == {q \in SUBSET all : Cardinality(q) = k /\ Matches(q, st0, LO, MO, IO)} IN
+       IF S # {} THEN CHOOSE q \in S : TRUE ELSE Smallest(k + 1, st0, LO, MO, IO)
 Explain(st0, LO, MO, IO) ==
   LET all == {QuirkOrder[i] : i \in 1..Len(QuirkOrder)} IN
-  IF Matches(all, st0, LO, MO, IO) THEN Shrink(all, 1, st0, LO, MO, IO) ELSE {}
+  IF Matches(all, st0, LO, MO, IO) THEN Shrink(all, 1, st0, LO, MO, IO) ELSE Smallest(1, st0, LO, MO, IO)
 
 Verdict ==
   LET st0 == MkSt0 IN
